@@ -14,7 +14,7 @@ ELEMS = ("int", "trk")
 TIERS = {
     # universe / capacity of the exhaustive model; capacities / universe of the seeded random histories
     "quick": {"univ": 5, "cap": 3, "MaxXs": 2, "MaxCt": 3, "rcaps": (8,), "runiv": 12, "rsteps": 400},
-    "thorough": {"univ": 6, "cap": 4, "MaxXs": 2, "MaxCt": 4, "rcaps": (1, 2, 8, 16), "runiv": 20, "rsteps": 4000},
+    "thorough": {"univ": 6, "cap": 4, "MaxXs": 2, "MaxCt": 4, "rcaps": (1, 2, 8, 16), "runiv": 20, "rsteps": 2000},
 }
 
 SURFACE = {
